@@ -288,8 +288,30 @@ def s_latch_in_function(rng, nval):
                edges={"a": list(range(-1, 10)), "lv": list(range(-1, 10))}, memory=True)
 
 
+def s_args_named_like_params(rng, nval):
+    """The caller's variables have the names of the callee's parameters and are passed in another order (also
+    through a nested call): every argument is evaluated in the caller's scope before any parameter is bound."""
+    types = gen.Types(rng)
+    prog = [["input", "a", types.fresh(), rng.randint(-3, 12)], ["input", "b", types.fresh(), rng.randint(-3, 12)],
+            ["input", "c", types.fresh(), rng.randint(-3, 12)]]
+    op1, op2 = rng.choice(["-", "+", "*"]), rng.choice(["-", "*"])
+    prog.append(["func", "f", [["Signal", "a"], ["Signal", "b"]], [],
+                 ["p", ["b", op1, ["v", "a"], ["b", op2, ["v", "b"], ["n", rng.randint(2, 4)]]], types.fresh()]])
+    if rng.random() < 0.5:
+        prog.append(["func", "g", [["Signal", "a"], ["int", "b"], ["Signal", "c"]], [],
+                     ["p", ["b", "+", ["b", "*", ["v", "a"], ["v", "b"]], ["v", "c"]], types.fresh()]])
+        prog.append(["sig", "r2", ["call", "g", [["v", "c"], ["n", rng.randint(2, 5)], ["v", "a"]]]])
+    calls = [["call", "f", [["v", "b"], ["v", "a"]]],
+             ["call", "f", [["v", "c"], ["call", "f", [["v", "a"], ["v", "b"]]]]],
+             ["call", "f", [["v", "c"], ["b", "+", ["v", "a"], ["n", 1]]]]]
+    rng.shuffle(calls)
+    for i, c in enumerate(calls[:rng.randint(1, 3)]):
+        prog.append(["sig", "r%d" % (10 + i), c])
+    return _mk(prog, "arguments_named_like_parameters", rng, nval, edges={"a": list(range(-5, 15))})
+
+
 STRATA = [(s_scalar, 4), (s_untyped_result, 2), (s_shadow, 3), (s_entity_param, 2), (s_entity_return, 2),
-          (s_local_memory, 2), (s_nested, 3), (s_in_loop, 2), (s_int_clash, 3), (s_iter_clash, 2), (s_sigparam_clash, 2), (s_param_shadowed_by_iterator, 2), (s_param_projected, 2), (s_returned_local_read_in_callee, 2), (s_local_memory_named_like_callers, 2), (s_latch_in_function, 2)]
+          (s_local_memory, 2), (s_nested, 3), (s_in_loop, 2), (s_int_clash, 3), (s_iter_clash, 2), (s_sigparam_clash, 2), (s_param_shadowed_by_iterator, 2), (s_param_projected, 2), (s_returned_local_read_in_callee, 2), (s_local_memory_named_like_callers, 2), (s_latch_in_function, 2), (s_args_named_like_params, 3)]
 
 
 def gen_cases(tier, seed):
